@@ -202,7 +202,7 @@ def run_group(klepto, group, km, mode, variant=None, cache=None):
     """mode: 'std' / 'safe' (cached with inf_cache) or 'keygen' (klepto.keygen decorator, keys only)
     returns a trace dict for KeyTrace"""
     kind = (variant or {}).get('kind', 'plain')      # plain function / functools.partial fixing k / method
-    variant = {k: v for k, v in (variant or {}).items() if k not in ('kind', 'bare')} or None
+    variant = {k: v for k, v in (variant or {}).items() if k not in ('kind', 'bare', 'replay')} or None
     func, src = make_func(group['sig'])
     raw, _ = make_func(group['sig'], 'raw')
     ignore = ignore_tuple(group['ign'])
